@@ -132,6 +132,33 @@ def _axes_arg(args, kwargs, rank, names=("dim", "axis")):
     return (a,)
 
 
+def _sum_of_squares(t):
+    """a^2 + b^2 (+ ...): at least two monomials with positive coefficients, each the square of one atom, or a sum over an axis
+    of such a term (the squared norm of a vector)."""
+    if not isinstance(t, T.Poly):
+        return False
+    a = t.single_atom()
+    if isinstance(a, T.App) and a.op in ("sum", "dot", "matmul") and a.args:
+        if a.op == "sum":
+            return _sum_of_squares(a.args[0]) or _is_square(a.args[0])
+    if len(t.terms) < 2:
+        return False
+    return all(c > 0 and (_mono_square(m)) for m, c in t.terms.items())
+
+
+def _mono_square(m):
+    if len(m) == 1 and m[0][1] == 2:
+        return True
+    # dot(x, x) / matmul(x, x): the sum of the squares of a vector's entries
+    if len(m) == 1 and m[0][1] == 1 and isinstance(m[0][0], T.App) and m[0][0].op in ("dot", "matmul") and len(m[0][0].args) == 2 and m[0][0].args[0] == m[0][0].args[1]:
+        return True
+    return False
+
+
+def _is_square(t):
+    return isinstance(t, T.Poly) and len(t.terms) == 1 and all(c > 0 and _mono_square(m) for m, c in t.terms.items())
+
+
 def split_list(it, tv, size, dim, node):
     """x.split(n) / torch.split(x, n) along axis 0: the views x[i : i + n] for i in range(0, len(x), n) - the same value a
     comprehension over that range builds (one generic element and the range it runs over)."""
@@ -422,6 +449,10 @@ def tensor_method(it, tv, name, args, kwargs, node):
             sm_ = rest.single_mono()
             if sm_ is not None and sm_[1] == 1 and len(sm_[0]) == 1 and isinstance(sm_[0][0][0], T.Exp) and sm_[0][0][1] == 1 and not sm_[0][0][0].arg.is_const():
                 it.numeric.append((it.site(node), "log(1 + exp(x)) [overflow]", sm_[0][0][0].arg, tuple(fr.func.qualname for fr in it.frames if fr.func is not None)))
+        if base == "sqrt" and t is not None and _sum_of_squares(t):
+            # sqrt(a^2 + b^2) with the squares formed first: a^2 overflows for |a| > 1.34e154 and underflows below 1.5e-154 although
+            # the root is representable (torch.hypot scales first)
+            it.numeric.append((it.site(node), "sqrt(a^2 + b^2) [range]", t, tuple(fr.func.qualname for fr in it.frames if fr.func is not None)))
         nt = map_stack(fn, t)
         if inplace:
             it.write(tv, nt, node, name)
